@@ -21,7 +21,7 @@ pub fn main_dispatch(eng: &Engine) -> i32 {
             println!("{}", serde_json::to_string(&plan).unwrap());
             0
         }
-        Some("selftest") => supervisor::selftest(eng, &args[2], 40),
+        Some("selftest") => supervisor::selftest(eng, &args[2], args.get(3).and_then(|s| s.parse().ok()).unwrap_or(40)),
         _ => {
             eprintln!("usage: {} check|worker|replay|exec-plan|gen-plan|selftest ...", eng.name);
             2
